@@ -205,6 +205,14 @@ def r6_no_capacity_limit_on_scope_log(ctx: Ctx) -> None:
     scope_log_is_not_a_depth(ctx)
 
 
+def r7_iteration_scope_replay(ctx: Ctx) -> None:
+    """`each iteration in its own scope`: the internal scope of an iteration is a child of the scope the loop stands in and is entered
+    and left again in every pass (shared with C08.R2)"""
+    from .c08 import r2_replay_agreement
+
+    r2_replay_agreement(ctx)
+
+
 def rb_binding_agreement(ctx: Ctx) -> None:
     from ..ownership import binding_agreement
 
@@ -225,4 +233,4 @@ def ru_names_bound(ctx: Ctx) -> None:
     names_rule(ctx)
 
 
-RULES = [r1_if, r2_for, r3_parser_binding, r4_only_the_condition_is_guarded, r5_named_scope_in_iteration, r6_no_capacity_limit_on_scope_log, rb_binding_agreement, rm_no_process_lifetime_results, ru_names_bound]
+RULES = [r1_if, r2_for, r3_parser_binding, r4_only_the_condition_is_guarded, r5_named_scope_in_iteration, r6_no_capacity_limit_on_scope_log, r7_iteration_scope_replay, rb_binding_agreement, rm_no_process_lifetime_results, ru_names_bound]
